@@ -16,6 +16,9 @@ roll-back; as written:
   and size with it; `addSize(-1)` — fails (`sizeW`) ⇒ trie and raw keys without it, size unchanged.  The answer is
   `(false, err)`.
 * Reads never write; `Set` of a value whose serializer fails returns before any write.
+* `Stream` when the iteration of the raw-key store fails (`rawR`): "failed to iterate over raw keys", the callback is
+  never called.  (Other read faults are not modelled: whether a read reaches the store depends on the caches of
+  `kvstore.TypedValue` and on which trie nodes are resolved.)
 
 Not modelled: write faults of the node store.  `Commit` has then already written the root cell, and what
 `smt.Commit` leaves behind depends on the node-level state of the third-party trie (`commit` marks a node persisted
@@ -30,12 +33,14 @@ inductive Fault
   | rootW   -- writes of the root cell fail
   | sizeW   -- writes of the size cell fail
   | rawW    -- writes of the raw-key store fail
+  | rawR    -- iterating the raw-key store fails (a read fault; the only reader is `Stream`)
 deriving DecidableEq, Repr
 
 inductive FOut (R : Type)
   | out (o : IOut R)
   | errSize    -- "failed to increase size" / "failed to decrease size"
   | errRaw     -- "failed to set raw key" / "failed to delete from raw keys store"
+  | errIter    -- `Stream`: "failed to iterate over raw keys" (the callback was never called)
 
 variable {R B : Type}
 
@@ -47,6 +52,7 @@ def fstep (c : Cfg R) (ic : IdCodec R B) (same : R → R → Bool) (f : Fault) (
   | none =>
     match f, op with
     | .rootW, .commit => (st, .out .errSetRoot)
+    | .rawR, .stream _ => (st, .errIter)
     | .rawW, .set (some kb) (some vb) =>
       ({ st with s := { st.s with trie := st.s.trie.update kb vb } }, .errRaw)
     | .sizeW, .set (some kb) (some vb) =>
